@@ -45,6 +45,40 @@ def check_quantity_source_unit(ctx, rule: str) -> int:
     return n
 
 
+INPLACE_PINT = ('ito', 'ito_base_units', 'ito_root_units', 'ito_reduced_units', 'ito_preferred')
+
+
+def check_no_inplace_conversion(ctx, rule: str) -> int:
+    """A pint Quantity built from p.value wraps the very array p.value holds; `.ito()` converts that array in place.  Every other
+    output that shares the array (the absorption chiller's HeatProduced is HeatExtracted's array) is rescaled with it while keeping its own
+    unit label.  Conversions must produce a new magnitude (`.to(...)`)."""
+    repo = ctx.repo
+    n = 0
+    for f in repo.all_functions():
+        if not any(seg in f.module.rel for seg in ('geophires_x/', 'hip_ra_x/', 'hip_ra/')):
+            continue
+        hits = []
+        for c in calls_in(f.node):
+            if not (isinstance(c.func, ast.Attribute) and c.func.attr in INPLACE_PINT):
+                continue
+            from gxstat.inline import enclosing_stmt, inline_sequential
+            st_ = enclosing_stmt(c)
+            recv = inline_sequential(c.func.value, st_) if st_ is not None else c.func.value
+            # only a quantity that wraps a parameter's stored value shares storage with it (one parsed from the user's text does not)
+            if any((isinstance(x, ast.Attribute) and x.attr == 'value' and isinstance(x.value, (ast.Attribute, ast.Name))) or
+                   (isinstance(x, ast.Call) and isinstance(x.func, ast.Attribute) and x.func.attr == 'quantity') for x in ast.walk(recv)):
+                hits.append(c)
+        qs = [c for c in calls_in(f.node) if (dotted_name(c.func) or '').split('.')[-1] in ('Quantity', 'quantity')]
+        if not hits and not qs:
+            continue
+        n += 1
+        ctx.check(not hits, rule, f'{f.qualname}/no-in-place-unit-conversion', f'{f.module.rel}:{(hits[0] if hits else f.node).lineno}',
+                  f'`{norm(hits[0])[:80] if hits else ""}` converts a pint quantity in place: the quantity wraps the array held by the parameter it was built '
+                  f'from, so every other output sharing that array is rescaled as well but keeps its own unit label (and the source value is '
+                  f'changed even when the conversion result is discarded)', fact='conversions use .to(...), which returns a new magnitude')
+    return n
+
+
 def check_value_unit_pairing(ctx, rule: str) -> int:
     """In the pint paths of the converters: `p.value = <...>.to(U).magnitude` is followed, on the same straight-line path, by
     `p.CurrentUnits = U'` where U' denotes the same unit as U."""
